@@ -93,6 +93,7 @@ def strategy(tier):
         # construction: the most derived level re-declares, by a plain value, the i-th Int/Any name it inherits; with `clash`
         # the mixin (a LATER base) declares the same name as a Str
         "redecl": st.one_of(st.none(), st.integers(0, 5)), "clash": st.booleans(),
+        "diamond": st.sampled_from([False, False, True]),
         "late": st.lists(st.tuples(st.integers(0, 2), st.sampled_from(PREFIXES[1:] + NAMES[:12]), st.booleans(), st.sampled_from(KINDS)).map(list),
                          max_size=2),
         # the listener declares ALL names of the `declare` set (not only the one being resolved) at the first resolution of any
@@ -297,6 +298,13 @@ def run(case, ctx):
             cls = type("Leaf", (cls, Mixin), ns)
             built.append(cls)
         ctx.label("mixin")
+    if case.get("diamond") and not mixin:
+        # the object's class sits BESIDE a diamond: Left, Right, Both(Left, Right), Late(Right) - nothing declared in any of
+        # them; whatever is (late-)declared higher up must reach Late like every other subclass
+        Left, Right = type("Left", (cls,), {}), type("Right", (cls,), {})
+        type("Both", (Left, Right), {})
+        cls = type("Late", (Right,), {})
+        ctx.label("sibling-of-a-diamond")
     res = Resolver(base, levels, mixin)
     declare = dict(case.get("declare") or {})
     declare_all = bool(case.get("declare_all")) and bool(declare)
